@@ -88,6 +88,9 @@ def step_env(step, outdir):
         env["VERIFSIM_FAULTFS_ROOT"] = outdir
     if step.get("hashseed"):
         env["GOMAXPROCS"] = str(1 + step["hashseed"] % 4)
+        # the process environment is no input of code generation either: time zone, locale, home directory
+        env["TZ"] = ["UTC", "Asia/Tokyo", "America/New_York", "Australia/Lord_Howe"][step["hashseed"] % 4]
+        env["LANG"] = ["C", "en_US.UTF-8", "tr_TR.UTF-8"][step["hashseed"] % 3]
     return env
 
 
